@@ -183,6 +183,7 @@ func (v *refView) base() content {
 	}
 	return v.root.clone()
 }
+
 // prefix is what has been stripped from the keys this view sees (concatenated over nested subsets).
 func (v *refView) prefix() []byte {
 	if v.parent == nil {
